@@ -181,6 +181,18 @@ RAW_CACHE = {}
 
 def raw_curve(cid):
     """raw arrays of the pool curves (no innate tip position: needs compute_tip_position)"""
+    if cid not in RAW_CACHE and cid >= 100:
+        # degenerate recordings on which contact-point estimators find nothing: constant force, a force that
+        # only falls (maximum at the first sample), a very short curve
+        from curves import synth
+        idnt = synth(n_app=[200, 200, 40][cid % 3], n_ret=[100, 100, 20][cid % 3], noise=[0.0, 0.0, 2e-11][cid % 3],
+                     seed=40 + cid)
+        cols = {c: np.array(idnt[c], copy=True) for c in ("force", "height (measured)", "segment", "time")}
+        if cid % 3 == 0:
+            cols["force"] = np.full_like(cols["force"], 1.5e-9)
+        elif cid % 3 == 1:
+            cols["force"] = np.linspace(3e-9, 1e-9, cols["force"].size)
+        RAW_CACHE[cid] = cols
     if cid not in RAW_CACHE:
         from curves import synth
         idnt = synth(n_app=[160, 240, 700][cid % 3], n_ret=[80, 120, 200][cid % 3], noise=[2e-11, 4e-11, 1e-11][cid % 3],
